@@ -107,7 +107,14 @@ let () =
                     [("noerr", p.p_noerr); ("slices", p.p_slices); ("keys", p.p_keys); ("values", p.p_values);
                      ("types", p.p_types); ("CF", p.p_cf); ("RF", p.p_rf); ("CS", p.p_cs); ("RS", p.p_rs);
                      ("RM", p.p_rm); ("RE", p.p_re)]) in
-                  if List.exists doc_has_ts_seconds ins then begin
+                  (* distinct leaves whose dotted names coincide ("a.b" next to a:{b}, a repeated field name): the keys
+                     cannot be distinct, which C02_keys_unique and C02_oracle_sound exclude by doc_keys_good; everything
+                     else (one series per leaf, every view a projection of the same table) is still demanded *)
+                  let inherent_dup = failed = "keys" &&
+                    (match ins with d :: _ -> not (nodupb (spec_keys d)) | [] -> false) &&
+                    List.for_all (fun c -> (match ins with d :: _ -> keys_eqb (List.map fst c.co_series) (spec_keys d) | [] -> false)) impl_chunks in
+                  if inherent_dup then Printf.printf "INFO stream=%s keys coincide by construction of the input (dotted or repeated field names)\n" !cur_id
+                  else if List.exists doc_has_ts_seconds ins then begin
                     incr known; Printf.printf "KNOWN ts-seconds stream=%s failed=%s\n" !cur_id failed end
                   else begin
                     incr viol;
